@@ -110,6 +110,13 @@ Section Scale.
     { assert (E3 : a / b = a / b / f * f) by (field; split; assumption). rewrite E3 at 2. symmetry. apply leb0_sc. }
     rewrite E2. destruct (Qcleb 0 (a / b)); reflexivity.
   Qed.
+  Lemma gez_div_sc_l a b : gez_div exact (a * f) b = map_res mulf (gez_div exact a b).
+  Proof.
+    unfold gez_div, gez_unwrap. cbn [a_div exact].
+    destruct (Qceqb_spec b 0) as [|Hb]; cbn [bind map_res]; [reflexivity|].
+    assert (E : a * f / b = a / b * f) by (field; assumption). rewrite E, leb0_sc.
+    destruct (Qcleb 0 (a / b)); reflexivity.
+  Qed.
   Lemma a_div_cancel a b : a_div exact (a * f) (b * f) = a_div exact a b.
   Proof.
     cbn [a_div exact]. rewrite eqb_sc0. destruct (Qceqb_spec b 0) as [|Hb]; [reflexivity|].
@@ -270,7 +277,7 @@ Section Scale.
     cbn [scale_tx t_sd t_af t_act]. destruct (Z.ltb last (t_sd x)); [reflexivity|].
     destruct (t_act x) as [sh aps com rate crate | sh aps com rate crate sp | aps rate | sh aps | post pre io];
       cbn [scale_action].
-    - rewrite gez_mul_sc_l. destruct (gez_mul exact sh _) as [b| |]; cbn [bind map_res]; try reflexivity; cbv beta.
+    - rewrite gez_div_sc_l. destruct (gez_div exact sh _) as [b| |]; cbn [bind map_res]; try reflexivity; cbv beta.
       cbn [sc_scan sc_eop sc_acq sc_active sc_buyers]. cbv beta. rewrite gez_add_sc.
       destruct (gez_add exact (sc_eop s) b) as [eop| |]; cbn [bind map_res]; try reflexivity; cbv beta.
       rewrite !alookup_mapv.
@@ -286,7 +293,7 @@ Section Scale.
                             sc_active := aupdate (af_id (t_af x)) na (sc_active s) |}).
       unfold sc_scan in IH at 1. cbn [sc_eop sc_acq sc_buyers sc_active] in IH.
       rewrite <- aupdate_mapv in IH. exact IH.
-    - rewrite gez_mul_sc_l. destruct (gez_mul exact sh _) as [b| |]; cbn [bind map_res]; try reflexivity; cbv beta.
+    - rewrite gez_div_sc_l. destruct (gez_div exact sh _) as [b| |]; cbn [bind map_res]; try reflexivity; cbv beta.
       cbn [sc_scan sc_eop sc_acq sc_active sc_buyers a_sub exact bind]. cbv beta.
       assert (E1 : sc_eop s * f - b * f = (sc_eop s - b) * f) by ring. rewrite E1, ltb_sc0.
       destruct (Qcltb (sc_eop s - b) 0); [reflexivity|].
@@ -307,7 +314,7 @@ Section Scale.
     - apply IH.
     - apply IH.
     - destruct (split_factor exact post pre) as [fa| |]; cbn [bind]; try reflexivity.
-      destruct (pos_div exact _ fa) as [nsa| |]; cbn [bind]; try reflexivity. apply IH.
+      destruct (pos_mul exact _ fa) as [nsa| |]; cbn [bind]; try reflexivity. apply IH.
   Qed.
 
   Lemma bwd_scan_sc first dflt dflt' bef adj s :
